@@ -43,6 +43,9 @@ def gen_for(crate):
     if crate == "d_evm":
         import gen_evm
         return gen_evm.generate()
+    if crate == "d_kad":
+        import gen_kad
+        return gen_kad.generate()
     if crate == "d_client":
         import gen_client
         return gen_client.generate()
